@@ -274,7 +274,7 @@ fn const_value_json<'tcx>(tcx: TyCtxt<'tcx>, val: ConstValue, t: Ty<'tcx>, depth
     if let ConstValue::ZeroSized = val {
         return format!("{{\"zst\":{}}}", esc(&ty_str(t)));
     }
-    if depth > 4 {
+    if depth > 6 {
         return "null".into();
     }
     // aggregates
@@ -382,23 +382,24 @@ fn dump_fn<'tcx>(tcx: TyCtxt<'tcx>, ldid: LocalDefId, kind: DefKind, out: &mut S
     } else {
         tcx.optimized_mir(did)
     };
+    let id = canon(tcx, did);
+    let hdr = format!(
+        "\"path\":{},\"file\":{},\"line\":{},\"end\":{},\"vis\":{},\"impl_trait\":{},\"self_ty\":{},\"trait_item\":{},\"generic\":{},",
+        esc(&path_of(tcx, did)), esc(&file), line, end, esc(&vis), impl_trait, self_ty, trait_item, generic);
+    dump_body(tcx, did, body, &id, &hdr, out);
+    for (pi, pbody) in tcx.promoted_mir(did).iter_enumerated() {
+        let pid = format!("{}::{{promoted#{}}}", id, pi.as_usize());
+        let phdr = format!(
+            "\"path\":{},\"file\":{},\"line\":{},\"end\":{},\"vis\":\"promoted\",\"impl_trait\":null,\"self_ty\":null,\"trait_item\":null,\"generic\":{},",
+            esc(&path_of(tcx, did)), esc(&file), line, end, generic);
+        dump_body(tcx, did, pbody, &pid, &phdr, out);
+    }
+}
+
+fn dump_body<'tcx>(tcx: TyCtxt<'tcx>, did: DefId, body: &Body<'tcx>, id: &str, hdr: &str, out: &mut String) {
     let cx = Cx { tcx, body, env: TypingEnv::post_analysis(tcx, did) };
 
-    let _ = write!(
-        out,
-        "{{\"k\":\"fn\",\"id\":{},\"path\":{},\"file\":{},\"line\":{},\"end\":{},\"vis\":{},\"impl_trait\":{},\"self_ty\":{},\"trait_item\":{},\"generic\":{},\"argc\":{},",
-        esc(&canon(tcx, did)),
-        esc(&path_of(tcx, did)),
-        esc(&file),
-        line,
-        end,
-        esc(&vis),
-        impl_trait,
-        self_ty,
-        trait_item,
-        generic,
-        body.arg_count
-    );
+    let _ = write!(out, "{{\"k\":\"fn\",\"id\":{},{}\"argc\":{},", esc(id), hdr, body.arg_count);
     // locals
     out.push_str("\"locals\":[");
     for (i, ld) in body.local_decls.iter().enumerate() {
@@ -577,8 +578,10 @@ fn const_json<'tcx>(cx: &Cx<'tcx, '_>, c: &Const<'tcx>) -> String {
                     valj = const_value_json(tcx, v, *t, 3);
                 }
             }
-            let promoted = uv.promoted.is_some();
-            return format!("{{\"c\":{},\"ty\":{},\"named\":{},\"promoted\":{}}}", valj, esc(&ty_str(*t)), esc(&p), promoted);
+            if let Some(pi) = uv.promoted {
+                return format!("{{\"c\":{},\"ty\":{},\"promoted\":{}}}", valj, esc(&ty_str(*t)), esc(&format!("{}::{{promoted#{}}}", p, pi.as_usize())));
+            }
+            return format!("{{\"c\":{},\"ty\":{},\"named\":{}}}", valj, esc(&ty_str(*t)), esc(&p));
         }
         Const::Ty(..) => {
             if let Some(si) = c.try_eval_scalar_int(tcx, cx.env) {
